@@ -1,0 +1,62 @@
+//go:build verif
+
+// Contracts for govc (see /verif/DESIGN.md). Comment-only file: no executable code.
+
+package ompt
+
+// ---------------------------------------------------------------------------
+// RLP node codec of the object trie (used by C22: list items survive store and reload; premises of
+// C17 / C18). Same three string forms and two list forms as the codec of C23.
+// ---------------------------------------------------------------------------
+
+//@ property C22
+//@ func rlpCountBytesForSize(b) (cnt)
+//@   arith bv
+//@   pure
+//@   requires b >= 0
+//@   ensures [range] 1 <= cnt && cnt <= 8
+//@   ensures [fits] cnt == 8 || uint64(b) < (uint64(1) << uint64(8 * cnt))
+//@   ensures [minimal] cnt == 1 || uint64(b) >= (uint64(1) << uint64(8 * (cnt - 1)))
+//@   loop 0: unroll 8
+
+// the k-byte big-endian size field of a long item: accepted exactly when 1 <= k <= 8, the bytes are
+// there, there is no leading zero and the value is above 55; the value is all k bytes, big-endian
+//@ func rlpReadSize(b, slen) (s, err)
+//@   arith bv
+//@   pure
+//@   ensures [value] err == nil ==> 1 <= slen && slen <= 8 && int(slen) <= len(b) && s == dec_u64(arr(b), off(b), int(slen)) && s >= 56 && b[0] != 0
+//@   ensures [complete] 1 <= slen && slen <= 8 && int(slen) <= len(b) && b[0] != 0 && dec_u64(arr(b), off(b), int(slen)) >= 56 ==> err == nil
+
+// header of one item: kind, size of the tag (with size field) and size of the content, which lies
+// inside the buffer
+//@ func rlpParseHeader(buf) (islist, tagsize, contentsize, err)
+//@   arith bv
+//@   pure
+//@   opt nomerge
+//@   ensures [inside] err == nil ==> len(buf) > 0 && tagsize <= uint64(len(buf)) && contentsize <= uint64(len(buf)) - tagsize
+//@   ensures [byte] err == nil && buf[0] < 0x80 ==> !islist && tagsize == 0 && contentsize == 1
+//@   ensures [short] err == nil && buf[0] >= 0x80 && buf[0] < 0xb8 ==> !islist && tagsize == 1 && contentsize == uint64(buf[0] - 0x80)
+//@   ensures [long] err == nil && buf[0] >= 0xb8 && buf[0] < 0xc0 ==> !islist && tagsize == uint64(buf[0] - 0xb7) + 1 && contentsize == dec_u64(arr(buf), off(buf) + 1, int(buf[0] - 0xb7)) && contentsize >= 56 && buf[1] != 0
+//@   ensures [list] err == nil && buf[0] >= 0xc0 && buf[0] < 0xf8 ==> islist && tagsize == 1 && contentsize == uint64(buf[0] - 0xc0)
+//@   ensures [longlist] err == nil && buf[0] >= 0xf8 ==> islist && tagsize == uint64(buf[0] - 0xf7) + 1 && contentsize == dec_u64(arr(buf), off(buf) + 1, int(buf[0] - 0xf7)) && contentsize >= 56 && buf[1] != 0
+//@   ensures [canonical] err == nil && buf[0] == 0x81 && len(buf) > 1 ==> buf[1] >= 0x80
+
+// a string item is returned as the window of the input that holds its content
+//@ func rlpParseBytes(b) (r, err)
+//@   arith bv
+//@   pure
+//@   opt nomerge
+//@   ensures [window] err == nil ==> b[0] < 0xc0 && ref(r) == ref(b) && (b[0] < 0x80 ==> off(r) == off(b) && len(r) == 1) && (b[0] >= 0x80 && b[0] < 0xb8 ==> off(r) == off(b) + 1 && len(r) == int(b[0] - 0x80)) && (b[0] >= 0xb8 ==> off(r) == off(b) + 1 + int(b[0] - 0xb7) && uint64(len(r)) == dec_u64(arr(b), off(b) + 1, int(b[0] - 0xb7)))
+
+// string encoder: same format as C21 / C23
+//@ spec omptSingle(b) = len(b) == 1 && b[0] < 0x80
+//@ func rlpEncodeBytes(b) (r)
+//@   arith bv
+//@   pure
+//@   requires len(b) < 0x1000000000000000
+//@   ensures [single] omptSingle(b) ==> r == b
+//@   ensures [short] !omptSingle(b) && len(b) <= 55 ==> fresh(r) && len(r) == len(b) + 1 && r[0] == byte(0x80 + len(b)) && (forall i int :: {b[i]} 0 <= i && i < len(b) ==> r[1 + i] == b[i])
+//@   ensures [long] len(b) > 55 ==> fresh(r) && r[0] >= 0xb8 && r[0] <= 0xbf && len(r) == 1 + int(r[0] - 0xb7) + len(b)
+//@   ensures [longsize] len(b) > 55 ==> dec_u64(arr(r), off(r) + 1, int(r[0] - 0xb7)) == uint64(len(b)) && r[1] != 0
+//@   ensures [longdata] len(b) > 55 ==> (forall i int :: {b[i]} 0 <= i && i < len(b) ==> r[1 + int(r[0] - 0xb7) + i] == b[i])
+//@   loop 0: unroll 8
